@@ -23,6 +23,11 @@ def run(ck):
     h = ck.run_tlc(["engine"], "SerialPause", "SerialPause_hyp.cfg", workers=2, timeout=300)
     if h.ok:
         raise core.Broken("negative control: the flag-only Pause design (DispatchLock = FALSE) must violate Quiescent")
+    nl = ck.run_tlc(["engine"], "SerialPause", "SerialPause_nolock.cfg", workers=2, timeout=300)
+    if nl.ok or nl.violated not in ("NoLostWakeup", "EventuallyDone"):
+        raise core.Broken("negative control: a Continue that stores and broadcasts without pauseMu (ContinueLock = FALSE) must lose a wake-up "
+                          "(NoLostWakeup / EventuallyDone); TLC says %s %s" % (nl.violated, nl.error))
+    ck.note("negative control (Continue without pauseMu): %s refuted by TLC" % nl.violated)
     r = ck.run_tlc(["engine"], "ParEngine", "ParEngine_q.cfg" if q else "ParEngine_t.cfg", workers=8 if q else 16, timeout=3000)
     if not r.ok:
         raise core.Broken("ParEngine.tla violates %s" % r.violated)
@@ -48,3 +53,12 @@ def run(ck):
                                                                      programs=40 if q else 400, max_events=150))
     c04.run_traces(ck, "serial-free", "ParTrace_strict.cfg", dict(engine="serial", gated=False, spin=30, pauses=3,
                                                                   programs=40 if q else 400, max_events=150))
+    # pause storms: Pause immediately followed by Continue (no mutex hand-over in between: the two steps are ordered by an atomic sequence
+    # number), as many times as fit into a long chain of events; after every Continue the run must make progress again ("after Continue the
+    # run proceeds"): the lost wake-up SerialPause_nolock.cfg exhibits on the model is hunted on the real engines
+    for eng, cfg in (("serial", "ParTrace_strict.cfg"), ("parallel", "ParTrace_parallel.cfg")):
+        c04.run_traces(ck, eng + "-storm", cfg, dict(engine=eng, scenario="chain", gated=False, storm=True, pauses=1000000,
+                                                    programs=6 if q else 40, max_events=1500 if q else 3000))
+    # the pausing goroutine schedules a primary event at the current instant while it holds the pause
+    c04.run_traces(ck, "parallel-gated-sched-in-pause", "ParTrace_parallel.cfg", dict(engine="parallel", procs_cycle=True, gated=True, policy="random", pauses=3, sched_in_pause=True,
+                                                                                     given=given[:30] if q else given[:300], programs=6 if q else 60, max_events=30))
